@@ -9,6 +9,7 @@ import (
 	"bytes"
 	"context"
 	"encoding/json"
+	"errors"
 	"fmt"
 	"io"
 	"net/http"
@@ -86,14 +87,15 @@ type want struct {
 }
 
 type world struct {
-	mu     sync.Mutex
-	tw     *trace.Writer
-	wants  map[int]*want
-	cloud  map[string]string // source -> "pos" | "neg" while the instance cache knows it
-	gates  map[int]chan struct{}
-	upFail int // forwarder mode: event POSTs the upstream still has to refuse (after reading the body)
-	res    *vh.Result
-	rec    map[string]any
+	mu       sync.Mutex
+	tw       *trace.Writer
+	wants    map[int]*want
+	cloud    map[string]string // source -> "pos" | "neg" while the instance cache knows it
+	gates    map[int]chan struct{}
+	failNext map[int]int // backend -> SendEvent calls that still have to fail with an error of the backend's own
+	upFail   int         // forwarder mode: event POSTs the upstream still has to refuse (after reading the body)
+	res      *vh.Result
+	rec      map[string]any
 }
 
 // resolve: the lookup for ip was answered; every event of that sender still waiting gets this answer, and the cache knows it from now on
@@ -192,6 +194,16 @@ func (b *backend) SendEvent(ctx context.Context, e *gostatsd.Event) error {
 	}
 	alive := ctx.Err() == nil // a backend that honours its context cannot finish once it is cancelled
 	b.w.tw.Emit(map[string]any{"ev": "sent", "b": b.n, "id": id, "ok": alive})
+	b.w.mu.Lock()
+	fail := alive && b.w.failNext[b.n] > 0
+	if fail {
+		b.w.failNext[b.n]--
+	}
+	b.w.mu.Unlock()
+	if fail { // the event reached the backend, whose own transport then let it down: that is the backend's affair, not the pipeline's
+		b.w.res.Hit("backend-send-error")
+		return errors.New("503 from the vendor")
+	}
 	return ctx.Err()
 }
 
@@ -279,7 +291,7 @@ func runSchedule(t *testing.T, tw *trace.Writer, c *scase, idx int, res *vh.Resu
 		logger.SetLevel(logrus.PanicLevel)
 		logrus.SetLevel(logrus.PanicLevel)
 		ctx, cancel := context.WithCancel(context.Background())
-		w := &world{tw: tw, wants: map[int]*want{}, cloud: map[string]string{}, gates: map[int]chan struct{}{}, res: res}
+		w := &world{tw: tw, wants: map[int]*want{}, cloud: map[string]string{}, gates: map[int]chan struct{}{}, failNext: map[int]int{}, res: res}
 		var wg sync.WaitGroup
 		var top gostatsd.PipelineHandler
 		forwarder := c.Cfg.Mode == "forwarder"
@@ -347,16 +359,26 @@ func runSchedule(t *testing.T, tw *trace.Writer, c *scase, idx int, res *vh.Resu
 		waits := 0
 		for _, o := range c.Sched {
 			switch o.Op {
-			case "ev":
+			case "ev", "evbad":
 				n++
 				text := strings.Join(c.Lines[o.K-1].Toks, "")
+				x := mkWant(o.K, n, o.S)
+				if o.Op == "evbad" { // one more tag, after the line's own, with a byte that is not UTF-8
+					text += ",o:Jos\xe9"
+					if forwarder {
+						x.tags = append(x.tags, "o:Jos\uFFFD")
+					} else {
+						x.tags = append(x.tags, "o:Jos\xe9")
+					}
+					res.Hit("invalid-utf8-tag-after-valid-ones")
+				}
 				if strings.Contains(text, "|#") {
 					text += fmt.Sprint(",id:", n)
 				} else {
 					text += fmt.Sprint("|#id:", n)
 				}
 				w.mu.Lock()
-				w.wants[n] = mkWant(o.K, n, o.S)
+				w.wants[n] = x
 				w.mu.Unlock()
 				tw.Emit(map[string]any{"ev": "offered", "id": n, "via": "udp", "line": text})
 				dg := &statsd.Datagram{IP: gostatsd.Source(o.S), Msg: []byte(text), Timestamp: gostatsd.Nanotime(time.Now().UnixNano()), DoneFunc: func() {}}
@@ -453,6 +475,34 @@ func runSchedule(t *testing.T, tw *trace.Writer, c *scase, idx int, res *vh.Resu
 					w.gates[o.K] = nil
 				}
 				w.mu.Unlock()
+			case "bfail":
+				w.mu.Lock()
+				w.failNext[o.K]++
+				w.mu.Unlock()
+			case "evict":
+				ci.mu.Lock()
+				_, had := ci.known[gostatsd.Source(o.S)]
+				delete(ci.known, gostatsd.Source(o.S))
+				ci.mu.Unlock()
+				w.mu.Lock()
+				delete(w.cloud, o.S)
+				w.mu.Unlock()
+				if had {
+					res.Hit("cache-entry-evicted")
+				}
+			case "refresh":
+				ci.mu.Lock()
+				inst, had := ci.known[gostatsd.Source(o.S)]
+				ci.mu.Unlock()
+				if had {
+					r := "neg"
+					if inst != nil {
+						r = "pos"
+					}
+					w.resolve(o.S, r) // events of s still waiting for a lookup are answered by this announcement
+					ci.info <- gostatsd.InstanceInfo{IP: gostatsd.Source(o.S), Instance: inst}
+					res.Hit("cache-refresh-announced")
+				}
 			case "upfail":
 				w.mu.Lock()
 				w.upFail = 1 // only the next POST: an upstream that keeps refusing makes the forwarder give up, which is not this property's case
